@@ -216,16 +216,31 @@ def findSession (ss : List Session) (id : Nat) : Option Session := ss.find? (fun
 def refreshSession (ss : List Session) (id : Nat) (vu : Nat) : List Session :=
   ss.map (fun s => if s.id == id then { s with validUntil := vu } else s)
 
-/-- `checkSessionCookie`: unknown or expired ⇒ nothing; otherwise refresh and return the token. -/
+/-- `sess.Expired()`: the comparison is regenerated from the source (`time.Now().After(validUntil)`). -/
+def sessionExpired (now : Nat) (s : Session) : Bool :=
+  if sessionExpiredStrict then decide (now > s.validUntil) else decide (now ≥ s.validUntil)
+
+/-- The statements of `checkSessionCookie` after the session has been found, interpreted in source
+    order (`PB.Gen.Api.checkSessionCookieSteps`, regenerated on every run). `s` is the session object
+    (a pointer in Go: a refresh is visible to the later statements). The list always ends in `grant`
+    (checked by the extractor; Go does not compile a function with a result that falls off its end). -/
+def runCookieSteps (st : St) (s : Session) : List CookieStep → St × Option Token
+  | [] => (st, none)
+  | .refuseIfExpired :: rest => if sessionExpired st.now s then (st, none) else runCookieSteps st s rest
+  | .refresh :: rest =>
+    runCookieSteps { st with sessions := refreshSession st.sessions s.id (st.now + sessionTTL) }
+      { s with validUntil := st.now + sessionTTL } rest
+  | .grant :: _ => (st, some s.tok)
+
+/-- `checkSessionCookie`: no cookie or unknown ⇒ nothing; otherwise the statements as written
+    (expired ⇒ nothing and *nothing is refreshed*; otherwise refresh and return the token). -/
 def checkSessionCookie (st : St) (r : Req) : St × Option Token :=
   match r.cookie with
   | none => (st, none)
   | some id =>
     match findSession st.sessions id with
     | none => (st, none)
-    | some s =>
-      if st.now > s.validUntil then (st, none)
-      else ({ st with sessions := refreshSession st.sessions id (st.now + sessionTTL) }, some s.tok)
+    | some s => runCookieSteps st s checkSessionCookieSteps
 
 /-- `createSession`. -/
 def createSession (st : St) (t : Token) : St :=
@@ -233,7 +248,7 @@ def createSession (st : St) (t : Token) : St :=
 
 /-- `cleanSessions`. -/
 def cleanSessions (st : St) : St :=
-  { st with sessions := st.sessions.filter (fun s => !(decide (st.now > s.validUntil))) }
+  { st with sessions := st.sessions.filter (fun s => !sessionExpired st.now s) }
 
 /-- `deleteSession`. -/
 def deleteSession (st : St) (id : Nat) : St :=
@@ -411,5 +426,13 @@ def step (st : St) : Event → St
   | .request r => (handle st r).1
 
 def run (st : St) (h : List Event) : St := h.foldl step st
+
+/-- The session with cookie `id` is dead in `st`: the id has been handed out (so it can never be
+    handed out again) and the session map holds no live session under it — it was reset (auth/reset),
+    cleaned, or every entry under that id has expired. -/
+def SessionDead (st : St) (id : Nat) : Prop :=
+  id < st.nextId ∧ ∀ s ∈ st.sessions, s.id = id → st.now > s.validUntil
+
+instance (st : St) (id : Nat) : Decidable (SessionDead st id) := by unfold SessionDead; exact inferInstance
 
 end PB.Api
